@@ -528,6 +528,43 @@ func ruleDPEmit(c *Ctx, rule string) {
 			}
 		}
 	}
+	// the pre-filter before alignRecursion: a trapezoid spans only the shared k-mers
+	// (the DP extends beyond them), so it may be skipped only when it is shorter than
+	// the word size k — never by comparing it with the minimum hit length
+	arec := c.fn("align/pals/dp", "(*kernel).alignRecursion")
+	for _, b := range at.Blocks {
+		for _, ins := range b.Instrs {
+			call, ok := ins.(*ssa.Call)
+			if !ok || call.Call.StaticCallee() != arec {
+				continue
+			}
+			key := "dp.(*Aligner).AlignTraps/trapezoid-prefilter"
+			verdict := ""
+			for _, bf := range branchesAt(b) {
+				for _, side := range []ssa.Value{bf.cond.X, bf.cond.Y} {
+					if u, ok := side.(*ssa.UnOp); ok && u.Op == token.MUL {
+						if name, ok := fieldOf(u.X, pkg, "Aligner"); ok {
+							if name == "k" {
+								if verdict == "" {
+									verdict = "ok"
+								}
+							} else {
+								verdict = name
+							}
+						}
+					}
+				}
+			}
+			switch verdict {
+			case "ok":
+				c.ok(rule, key, call.Pos(), "trapezoids are skipped only by comparison with the word size k")
+			case "":
+				c.triv(rule, key, call.Pos(), "no size pre-filter before alignRecursion")
+			default:
+				c.bad(rule, key, call.Pos(), "trapezoids are skipped by comparing their height with the aligner's "+verdict+" instead of the word size k: a repeat just over the minimum length with mismatches near its ends yields a trapezoid shorter than the minimum length, which is then never aligned although the alignment itself is long enough")
+			}
+		}
+	}
 	for _, n := range []string{"minLen", "maxDiff"} {
 		key := "dp.(*Aligner).AlignTraps/wire-" + n
 		switch wired[n] {
